@@ -146,7 +146,7 @@ impl Rig {
 pub fn bounds(tier: Tier) -> Value {
     match tier {
         Tier::Quick => json!({"template_pieces": 3, "value_len": 2, "value_alphabet": 12, "w_values": 8, "positions": 3}),
-        Tier::Thorough => json!({"template_pieces": 3, "value_len": 3, "value_alphabet": 12, "w_values": 8, "positions": 3}),
+        Tier::Thorough => json!({"template_pieces": 3, "value_len": 4, "value_alphabet": 12, "w_values": 8, "positions": 3}),
     }
 }
 
@@ -208,7 +208,7 @@ pub fn worker(w: &mut Worker) {
     for s in SPREADS {
         templates.push(Tpl::Spread(s));
     }
-    let vl = tier.pick(2usize, 3usize);
+    let vl = tier.pick(2usize, 4usize);
     let mut vvalues: Vec<Option<String>> = vec![None];
     for s in Strings::new(&VSIGMA[..], 0, vl) {
         vvalues.push(Some(s.concat()));
